@@ -63,7 +63,8 @@ class Gen:
 
     # ---- types
     def ty(self, ctx="top", d=0):
-        """ctx: top | inner (behind a pointer/view) | element (of an array)"""
+        """ctx: top | inner (behind a pointer/view) | element (of `[]T`, `[:]T`, `[..]T`) | sized (element of an array with a
+        length: `[4][]T` is an invalid type like `[4][:]T` and `[4][..]T`, F60)"""
         r = self.rng
         k = r.below(10 if d < 3 else 3)
         if k <= 1 or (k == 2 and ctx != "top"):
@@ -83,11 +84,11 @@ class Gen:
             return ["view", self.ty("inner", d + 1)]
         if k == 6:
             self.note("T.array")
-            return ["array", r.pick([0, 1, 2, 7, 256, 65536]), self.ty("element", d + 1)]
+            return ["array", r.pick([0, 1, 2, 7, 256, 65536]), self.ty("sized", d + 1)]
         if k == 7:
             self.note("T.arraynamed")
-            return ["arraynamed", self.name("N"), self.ty("element", d + 1)]
-        if k == 8:
+            return ["arraynamed", self.name("N"), self.ty("sized", d + 1)]
+        if k == 8 and ctx != "sized":
             self.note("T.arraylike")
             return ["arraylike", self.ty("element", d + 1)]
         if k == 9 and ctx == "top":
